@@ -225,7 +225,9 @@ Record case := mkCase {
   c_torn : list (list (list Z));        (* per call: GetDeployStatus values (one per node) returned to a reader
                                            whose own reads straddle the call: it was stopped before one of its
                                            requests, the call ran completely, the reader went on *)
-  c_markers_left : bool                 (* a marker of this ident exists after the last call *)
+  c_markers_left : bool;                (* a marker of this ident exists after the last call *)
+  c_returned : bool                     (* the deployment returned to its caller (the real CreateWorkload closed its
+                                           channel / the driver ran the whole clean-up), as opposed to being cut short *)
 }.
 
 Definition probe_of (st : dstate) (nodes : list string) : list (Z * Z) :=
@@ -348,6 +350,14 @@ Definition all_deletes_issued (plan : list (string * Z)) (cs : list call) : bool
   forallb (fun n => existsb (fun c => match c with CDelProc n' false => String.eqb n n' | _ => false end) cs)
           (map fst plan).
 
+(* no DeleteProcessing of the deployment was observed to fail *)
+Fixpoint no_failed_delete (cs : list call) (rs : list bool) : bool :=
+  match cs, rs with
+  | CDelProc _ _ :: ct, r :: rt => r && no_failed_delete ct rt
+  | _ :: ct, _ :: rt => no_failed_delete ct rt
+  | _, _ => true
+  end.
+
 Definition ok (c : case) : bool :=
   match c_probes c with
   | [] => false
@@ -359,4 +369,7 @@ Definition ok (c : case) : bool :=
       && (if all_deletes_issued (c_plan c) (c_calls c)
           then exact_ok (c_init c) (c_nodes c) (last (c_probes c) prior) && negb (c_markers_left c)
           else true)
+      (* a deployment that returned and none of whose marker deletions failed leaves no marker -
+         whatever its plan was (also for nodes planned with 0 instances) and wherever it stopped *)
+      && (if c_returned c && no_failed_delete (c_calls c) (c_results c) then negb (c_markers_left c) else true)
   end.
